@@ -1351,8 +1351,25 @@ async fn socks_udp_case(datagram: &[u8]) -> Result<&'static str, (String, String
             last = cl.inbuf.len();
         }
     }
-    let delivered_bad = after_bad - before;
-    let delivered_good = cl.inbuf.len() - after_bad;
+    // attribute what the client received by content, not by arrival time: the record carrying
+    // "answer" belongs to the well-formed datagram, everything else to the bytes under test
+    let _ = (before, after_bad);
+    let received = cl.inbuf.clone();
+    let mut delivered_good = 0usize;
+    let mut delivered_bad = 0usize;
+    let mut pos = 0usize;
+    while received.len() - pos >= 4 {
+        let len = u32::from_be_bytes(received[pos..pos + 4].try_into().unwrap()) as usize;
+        let end = (pos + 4 + len).min(received.len());
+        let rec = &received[pos..end];
+        if rec.ends_with(b"answer") && rec.len() == 4 + 36 + 6 {
+            delivered_good += rec.len();
+        } else {
+            delivered_bad += rec.len();
+        }
+        pos = end;
+    }
+    delivered_bad += received.len() - pos;
     let session_over = cl.eof;
     // what was delivered for the bytes under test must be one well-formed record no larger than them
     if delivered_bad > datagram.len() + 40 {
